@@ -1,6 +1,9 @@
 (* Extraction of every executable Model and Spec entry point.  ExtrOcamlBasic only. *)
 From Coq Require Import Extraction ExtrOcamlBasic.
-From SA Require Import Base.Prelude Solr.MM Solr.MM_Spec Kernels.Intersect Kernels.Linear Kernels.Spec Codec.Codec Codec.Codec_Spec Index.Index Index.Index_Spec Query.Phrase Query.Phrase_Spec Score.BM25 Score.Score Query.Range Query.Range_Spec View.View View.View_Spec View.Purity Solr.Edismax Solr.Edismax_Spec.
+From SA Require Import Base.Prelude Solr.MM Solr.MM_Spec Kernels.Intersect Kernels.Linear Kernels.Spec Codec.Codec Codec.Codec_Spec Index.Index Index.Fast Index.Truncate Index.Index_Spec Query.Phrase Query.Phrase_Spec Score.BM25 Score.Score Query.Range Query.Range_Spec View.View View.View_Spec View.Purity Solr.Edismax Solr.Edismax_Spec.
+(* The ONLY extraction directive beyond ExtrOcamlBasic: Coq's List.rev is quadratic (rev l ++ [x]); it is
+   realised by OCaml's linear List.rev (same function: List.rev_alt : rev l = rev_append l []). *)
+Extract Inlined Constant rev => "List.rev".
 Extraction "samodel.ml"
   mm_f64 solr_mm
   intersect_drop intersect_keep adjacent intersect_with_adjacents lowbit
@@ -10,7 +13,7 @@ Extraction "samodel.ml"
   search_spec popcount_reduce_at_spec key_sum_over_spec popcount64_reduce_spec as_dense_spec sort_merge_counts_spec mvals
   encode encode_b decode slice_keys slice_header slice_range num_values_per_key keys_unique
   encode_spec group_by_key counts_spec keys_spec slice_spec boundaries_spec
-  index termfreqs docfreq doclengths corpus_size total_len positions
+  index index_g index_opt_g truncate_docs termfreqs docfreq doclengths corpus_size total_len positions
   tf_spec df_spec lens_spec total_spec positions_spec
   phrase_freqs choose_strategy get_all_posts phrase_spec phrase_nonoverlap_spec no_adjacent_repeat
   score_bm25 score_args kernel_bits score_bits
